@@ -25,6 +25,9 @@ type c07Case struct {
 	RChoices []int           `json:"rchoices"`         // choices driving the receiver into its state
 	Cont     []int           `json:"cont"`             // choices after the restore
 	Storer   string          `json:"storer,omitempty"` // "" = recording storer, "in-memory" = the library InMemoryStorer
+	// HostVisited: the host registers its own visited() on every runner (answers true for everything): functions are not part
+	// of a snapshot, a restore leaves them alone
+	HostVisited bool `json:"host_visited,omitempty"`
 }
 
 // snapView is a comparable, self-contained form of a snapshot (nil maps read as empty).
@@ -113,6 +116,9 @@ func runC07(c c07Case) Verdict {
 		if err != nil {
 			panic("generated script does not load: " + err.Error())
 		}
+		if c.HostVisited {
+			h.dr.AddFunction("visited", func([]*variable.Value) (*variable.Value, error) { return variable.NewBoolean(true), nil })
+		}
 		return h
 	}
 	ctx := func() string {
@@ -133,6 +139,22 @@ func runC07(c c07Case) Verdict {
 		return failf("Snapshot() returned nil%s", ctx())
 	}
 	frozen := viewSnapshot(snap)
+	// the values of a snapshot are the host's own: changing them through their pointers reaches neither another snapshot
+	// taken at the same moment nor the runner (the change is undone afterwards: nothing may leak into later cases either)
+	{
+		scratch := o.dr.Snapshot()
+		storeBefore := o.finalStore()
+		undo := scribbleVariables(scratch.Variables)
+		d1 := frozen.diff(viewSnapshot(snap))
+		d2 := sameStore(storeBefore, o.finalStore())
+		undo()
+		if d1 != "" {
+			return failf("changing the values of one snapshot through their pointers changed another snapshot taken at the same moment: %s%s", d1, ctx())
+		}
+		if d2 != "" {
+			return failf("changing the values of a snapshot through their pointers changed the runner's variables (before vs after): %s%s", d2, ctx())
+		}
+	}
 	entries := entryLog(o)
 	entryIdx := 0
 	if len(entries) > 0 {
@@ -272,7 +294,7 @@ func runC07(c c07Case) Verdict {
 	if d := before.diff(viewSnapshot(victim.dr.Snapshot())); d != "" {
 		return failf("a failed RestoreAt changed the runner's state: %s%s", d, ctx())
 	}
-	if state != "waiting-for-command" { // a twin that waits for a never-completing command only ever says "wait"
+	{ // (a twin that waits for a never-completing command only ever says "wait" - and so must the runner whose restore was refused)
 		nt, nv := 0, 0
 		twin.holdPending, victim.holdPending = false, false
 		// both continue from the receiver state; lastOpt is needed to answer a pending option group
@@ -284,6 +306,23 @@ func runC07(c c07Case) Verdict {
 		driveN(vi, 8, c.Cont, &nv)
 		if d := diffTraces(tw.trace, vi.trace); d != "" {
 			return failf("after a failed RestoreAt the runner does not go on like an untouched twin: %s%s", d, ctx())
+		}
+	}
+	{ // a snapshot that counts visits of something that is not a node: restored, or refused - and then nothing has changed
+		nt, nv := 0, 0
+		tw, vi := prepareKeepState(c, newH, &nt), prepareKeepState(c, newH, &nv)
+		odd := &ysgo.Snapshot{CurrentNode: snap.CurrentNode, Variables: copyVariables(snap.Variables), VisitedNodes: copyVisits(snap.VisitedNodes)}
+		odd.VisitedNodes["No Such Node"] = 3
+		before := viewSnapshot(vi.dr.Snapshot())
+		if err := vi.dr.RestoreAt(odd); err != nil {
+			if d := before.diff(viewSnapshot(vi.dr.Snapshot())); d != "" {
+				return failf("a refused RestoreAt (%v) changed the runner's state: %s%s", err, d, ctx())
+			}
+			driveN(tw, 8, c.Cont, &nt)
+			driveN(vi, 8, c.Cont, &nv)
+			if d := diffTraces(tw.trace, vi.trace); d != "" {
+				return failf("after a refused RestoreAt (%v) the runner does not go on like an untouched twin: %s\ntwin:\n%srunner:\n%s%s", err, d, showTrace(tw.trace), showTrace(vi.trace), ctx())
+			}
 		}
 	}
 	// (f) maps that are nil instead of empty (hand-built snapshots, saves decoded from "null") mean the same as empty ones
@@ -329,6 +368,32 @@ func runC07(c c07Case) Verdict {
 	return Verdict{NonTrivial: len(entries) >= 2 && state != "fresh", Classes: cls}
 }
 
+// scribbleVariables changes every value of the map through its pointer and returns the function that undoes it.
+func scribbleVariables(vars map[string]variable.Value) func() {
+	var undo []func()
+	for _, v := range vars {
+		switch {
+		case v.Boolean != nil:
+			p, old := v.Boolean, *v.Boolean
+			*p = !old
+			undo = append(undo, func() { *p = old })
+		case v.Number != nil:
+			p, old := v.Number, *v.Number
+			*p = old + 1000.5
+			undo = append(undo, func() { *p = old })
+		case v.String != nil:
+			p, old := v.String, *v.String
+			*p = old + " (changed by the host)"
+			undo = append(undo, func() { *p = old })
+		}
+	}
+	return func() {
+		for _, f := range undo {
+			f()
+		}
+	}
+}
+
 func copyVariables(in map[string]variable.Value) map[string]variable.Value {
 	out := make(map[string]variable.Value, len(in))
 	for k, v := range in {
@@ -349,6 +414,8 @@ func copyVisits(in map[string]int) map[string]int {
 // prepareKeepState drives a fresh runner into the receiver state and keeps its trace bookkeeping (for the twin comparison).
 func prepareKeepState(c c07Case, newH func() *host, nc *int) *host {
 	r := newH()
+	r.holdPending = true
+	defer func() { r.holdPending = false }()
 	switch c.Receiver {
 	case "steps":
 		driveN(r, c.RSteps, c.RChoices, nc)
@@ -356,7 +423,7 @@ func prepareKeepState(c c07Case, newH func() *host, nc *int) *host {
 		for i := 0; i < c07MaxEv; i++ {
 			driveN(r, 1, c.RChoices, nc)
 			last := r.trace[len(r.trace)-1]
-			if last.K == "end" || last.K == "panic" || (c.Receiver == "until-options" && last.K == "opts") {
+			if last.K == "end" || last.K == "panic" || (c.Receiver == "until-options" && last.K == "opts") || (c.Receiver == "until-wait" && last.K == "wait") {
 				break
 			}
 		}
@@ -396,7 +463,8 @@ var c07Snap = Register(Prop[c07Case]{
 	ID: "C07", Name: "snapshots",
 	Gen: func(t *rapid.T) c07Case {
 		f := genFlowCase(t, snapScriptOpts)
-		c := c07Case{Script: f.Script, Vars: f.Vars, Choices: f.Choices, Storer: rapid.SampledFrom([]string{"", "", "in-memory"}).Draw(t, "storer")}
+		c := c07Case{Script: f.Script, Vars: f.Vars, Choices: f.Choices, Storer: rapid.SampledFrom([]string{"", "", "in-memory"}).Draw(t, "storer"),
+			HostVisited: rapid.IntRange(0, 3).Draw(t, "hostvisited") == 0}
 		if rapid.IntRange(0, 2).Draw(t, "declared") == 0 {
 			// no variables before the dialogue starts: the start node sets them itself, so the very first checkpoint is empty
 			start := c.Script.allNodes()[0]
